@@ -266,13 +266,23 @@ class World(object):
         raise ValueError(m)
 
     # ------------------------------------------------------------------ events
+    def signed(self, c):
+        """Does connection attempt c satisfy the peer's TCP-MD5 requirement (always, when the peer has none)?"""
+        if not self.cfg.get('md5_peer'):
+            return True
+        sock = getattr(self.conn(c), 'pending_sock', None)
+        return sock is not None and any(lv == 6 and opt == 14 and val for (lv, opt, val) in sock.options)
+
     def can(self, ev):
         """Is this environment event possible in the real world right now?"""
         k = ev['k']
         if k == 'boot':
             return self.boot_call.active()
         if k in ('connOk', 'connRefused'):
-            return ev['c'] <= len(W.connectors) and self.conn(ev['c']).state == 'connecting'
+            if not (ev['c'] <= len(W.connectors) and self.conn(ev['c']).state == 'connecting'):
+                return False
+            # a peer configured with a TCP-MD5 password (cfg md5_peer) never completes a handshake with an unsigned attempt
+            return k == 'connRefused' or self.signed(ev['c'])
         if k == 'tcpTimeout':
             return (ev['c'] <= len(W.connectors) and self.conn(ev['c']).state == 'connecting' and
                     abs(self.conn(ev['c']).deadline - W.now) < EPS)
